@@ -649,9 +649,40 @@ func validateRenameNoTarget(op *fstxn.FsTxn, dipfrom *inode.Inode, dipto *inode.
 	return from.Inum == frominum && toinum == common.NULLINUM
 }
 
+// isInSubtree reports whether directory dip is anc or lies below it.  It
+// follows the ".." entries upwards, reading the committed inodes and entries
+// of the ancestors without locking them: the caller holds nfs.renameMu, so no
+// directory changes its parent meanwhile, and none of dip's ancestors can be
+// removed because each has a child.
+func (nfs *Nfs) isInSubtree(op *fstxn.FsTxn, dip *inode.Inode, anc common.Inum) bool {
+	if dip.Inum == anc {
+		return true
+	}
+	var inum, _ = dir.LookupName(dip, op, "..")
+	for steps := uint64(0); ; steps++ {
+		if inum == anc {
+			return true
+		}
+		if inum == common.ROOTINUM {
+			return false
+		}
+		if inum == common.NULLINUM || steps > uint64(nfs.fsstate.Super.NInode()) {
+			return true // malformed chain: refuse
+		}
+		addr := nfs.fsstate.Super.Inum2Addr(inum)
+		ip := inode.Decode(op.Atxn.Op.ReadBuf(addr, common.INODESZ*8), inum)
+		next, _ := dir.ScanName(ip, op, "..")
+		inum = next
+	}
+}
+
 func (nfs *Nfs) NFSPROC3_RENAME(args nfstypes.RENAME3args) nfstypes.RENAME3res {
 	defer nfs.recordOp(nfstypes.NFSPROC3_RENAME, time.Now())
 	var reply nfstypes.RENAME3res
+	if !fh.Equal(args.From.Dir, args.To.Dir) {
+		nfs.renameMu.Lock()
+		defer nfs.renameMu.Unlock()
+	}
 	var dipto *inode.Inode
 	var dipfrom *inode.Inode
 	var op *fstxn.FsTxn
@@ -813,6 +844,11 @@ func (nfs *Nfs) NFSPROC3_RENAME(args nfstypes.RENAME3args) nfstypes.RENAME3res {
 		return reply
 	}
 	if from != nil && from.Kind == nfstypes.NF3DIR && dipfrom != dipto {
+		// a directory must not be moved into itself or below itself
+		if nfs.isInSubtree(op, dipto, from.Inum) {
+			errRet(op, &reply.Status, nfstypes.NFS3ERR_INVAL)
+			return reply
+		}
 		// a directory moves to another parent: its ".." follows
 		ok0 := dir.RemName(from, op, "..") && dir.AddName(from, op, dipto.Inum, "..")
 		if !ok0 {
